@@ -56,6 +56,15 @@ def check(case, rec):
     enc_src = case.get('phys') or fs
     if case.get('phys'):
         rec.label('inheritance_plan')
+    use_marker = bool(case.get('marker'))
+    if use_marker:
+        last = enc_src['segments'][-1]
+        if any(t == 'str' for (_p, t, _n) in last.get('active') or []) and last.get('nchunks', 0) > 1:
+            use_marker = False
+    if use_marker:
+        # the writer did not get to fill in the last segment's length (0xFFFFFFFFFFFFFFFF), all data is present
+        enc_src = {'segments': enc_src['segments'][:-1] + [dict(enc_src['segments'][-1], marker=True)]}
+        rec.label('length_unknown_marker')
     for name, order in variants:
         data, _i, _l = encode_file(with_order(enc_src, order))
         for mode in ('eager', 'lazy'):
@@ -72,6 +81,17 @@ def check(case, rec):
                     if ok:
                         for clause, msg in res:
                             rec.violation('%s:%s:%s' % (name, mode, clause), msg)
+                    if mode == 'lazy':
+                        # the chunk stream hands out the segments' own arrays (in segment byte order)
+                        from props.C03 import compare_parts
+                        from vf.model import split_path
+                        for p in ex.channel_paths():
+                            g, c = split_path(p)
+                            ok, parts = rec.guard('%s:lazy:chunks' % name, lambda: [x[:] for x in tf[g][c].data_chunks()])
+                            if ok:
+                                for m in compare_parts(ex.objects[p]['type'], ex.values(p), parts,
+                                                       '%s chunk stream %s' % (name, p), raw_ts):
+                                    rec.violation('%s:lazy:chunk_values' % name, m)
                 finally:
                     tf.close()
 
@@ -80,7 +100,7 @@ def check(case, rec):
 def cases(draw, **kw):
     fs = draw(S.file_spec(be=False, **kw))
     mix = draw(st.lists(st.booleans(), min_size=len(fs['segments']), max_size=len(fs['segments'])))
-    return {'fs': fs, 'mix': mix}
+    return {'fs': fs, 'mix': mix, 'marker': draw(st.integers(0, 3)) == 0}
 
 
 def check_daqmx(case, rec):
